@@ -48,6 +48,9 @@ def configs(rng, tier):
     # recycled object by its previous picture (ready flags, counters) only matters here
     base.append(t(rng, frames=100, width=176, height=144, content="pan", **{"cfg.logical_processors": 4, "cfg.hierarchical_levels": 3,
                                                                           "cfg.intra_period_length": -1, "cfg.qp": 30}))
+    # all-intra (intra_period_length 0): every picture is an intra-only frame of its own mini-GOP
+    base.append(t(rng, frames=4, content="gradient", **{"cfg.logical_processors": 8, "cfg.hierarchical_levels": 2,
+                                                      "cfg.intra_period_length": 0, "cfg.intra_refresh_type": 1}))
     if tier != "quick":
         base.append(t(rng, frames=140, width=352, height=288, content="mix", **{"cfg.logical_processors": 4, "cfg.hierarchical_levels": 3,
                                                                               "cfg.intra_period_length": -1}))
@@ -85,6 +88,8 @@ def run(chk, tier, replay=None):
         s_ = common.feature_sig(base)
         if int(base.get("frames", 0)) > 36:  # longer than the picture-control-set pool: objects are recycled
             s_ += "+recycled-pcs"
+        if int(base.get("cfg.intra_period_length", -2)) == 0 and int(base.get("cfg.enable_tpl_la", 1)):
+            s_ += "+allintra-tpl"  # every picture intra coded while TPL is on
         return s_
     key_of = lambda base, v, kind: "C04|%s|%s" % (
         {"differs": "nondeterministic-output", "hang": "encode-hang", "crash": "encoder-crash"}[kind],
